@@ -1726,6 +1726,12 @@ class SequenceOfAndSetOfBase(base.ConstructedAsn1Type):
             yield self.getComponentByPosition(idx)
 
     def _cloneComponentValues(self, myClone, cloneValueFlag):
+        if self._componentValues is noValue:
+            return
+
+        # an empty value is a value, too
+        myClone.clear()
+
         for idx, componentValue in self._componentValues.items():
             if componentValue is not noValue:
                 if isinstance(componentValue, base.ConstructedAsn1Type):
@@ -2308,6 +2314,9 @@ class SequenceAndSetBase(base.ConstructedAsn1Type):
     def _cloneComponentValues(self, myClone, cloneValueFlag):
         if self._componentValues is noValue:
             return
+
+        # an empty value is a value, too
+        myClone.clear()
 
         for idx, componentValue in enumerate(self._componentValues):
             if componentValue is not noValue:
